@@ -4,6 +4,8 @@ import (
 	"crypto"
 	"fmt"
 	"io"
+	"os"
+	"time"
 
 	"github.com/oasisprotocol/ed25519"
 	"github.com/oasisprotocol/ed25519/verifharness/hx"
@@ -27,6 +29,37 @@ func guard(tr *hx.Trace, where string, f func()) (panicked bool) {
 	}()
 	f()
 	return false
+}
+
+// callTimeout: every library call the drivers make returns within milliseconds (the Bos-Coster loop is model-checked to
+// terminate).  A call that has not returned after this long is reported as a note - the orchestrator turns it into a
+// violation with the stuck input - and the driver stops, because the stuck goroutine cannot be reclaimed.
+var callTimeout = func() time.Duration {
+	if v, err := time.ParseDuration(os.Getenv("VERIF_CALL_TIMEOUT")); err == nil && v > 0 {
+		return v
+	}
+	return 240 * time.Second
+}()
+
+// watch runs a library call under the watchdog; panics propagate to the caller's own recover as before.
+func watch(tr *hx.Trace, where string, f func()) {
+	type res struct{ p interface{} }
+	done := make(chan res, 1)
+	go func() {
+		defer func() { done <- res{recover()} }()
+		f()
+	}()
+	select {
+	case r := <-done:
+		if r.p != nil {
+			panic(r.p)
+		}
+	case <-time.After(callTimeout):
+		note(tr, fmt.Sprintf("%s did not return within %s", where, callTimeout))
+		hx.FlushAll()
+		fmt.Printf("events=%d (stopped: a library call did not return)\n", tr.Count())
+		os.Exit(0)
+	}
 }
 
 func sVerify(tr *hx.Trace, key ed25519.PublicKey, msg, sig []byte) (ok bool) {
